@@ -108,7 +108,55 @@ class Prop(BaseProp):
             return Module(items), b, "triple:" + ",".join(triple)
         return Module(items), b, f"pair:{k1},{k2},{'body' if inbody else 'top'}"
 
+    def multiline_case(self, idx, rng):
+        """Arguments that span source lines (legal CMake in quoted and bracket arguments): the heading of such an entry is not
+        one line, so the page is only asked the quantifier itself -- one entry per documented command, none for the others."""
+        res = CaseResult()
+        b = Builder(rng, p_doc=0.6, max_depth=2, compound_generic=False)
+        b.kinds = ["function", "macro", "generic", "plain", "add_test", "generic", "add_test", "option", "set"]
+        mod = b.module()
+        ML = ['"first line\n   second line"', '"cd build &&\n ./selftest"', "[[bracket\nargument]]", '"ends with a break\n"', '"a\r\nb"']
+        touched = {}
+        for it in mod.walk():
+            if it.kind in ("generic", "plain", "add_test") and rng.random() < 0.7:
+                it.args = list(it.args) + [rng.choice(ML)]
+                touched[it.uid] = it
+        lay = Layout(rng, comments=rng.choice([0.0, 0.3]), wild=0.0, case="random")
+        text = render(mod, lay)
+        exp = expected_entries(mod)
+        res.sig = sig_hash(mod.shape())
+        res.nontrivial = len(touched) >= 1
+        res.see("mode", "multi-line-arguments")
+        res.count("entries_expected", len(exp))
+        o, doc = runner.document_text(text, runner.make_settings())
+        wit = {"text": text, "expected": [e.brief() for e in exp]}
+        if not o.ok:
+            res.violate(o.crash_class() or f"exit:{o.exit_code}", f"{type(o.exc).__name__}: {str(o.exc)[:300]}", wit)
+            return res
+        wit["rst"] = o.value
+        lines = o.value.split("\n")
+        want = {e.item.uid: e for e in exp if e.kind in ("generic", "ctest") and e.item.uid in touched}
+        for uid, it in touched.items():
+            tok = (it.gt.get("name") if it.kind == "add_test" else None) or next(a for a in it.args if isinstance(a, str) and f"N{uid}Z" in a)
+            heads = [l for l in lines if l.startswith(".. function:: ") and tok in l]
+            res.count("commands_with_multi_line_arguments")
+            if uid in want:
+                res.count("entries_matched")
+                res.see("entry_kinds_seen", want[uid].kind)
+                if len(heads) != 1:
+                    res.violate(f"multi-line-argument:{want[uid].kind}:{'missing' if not heads else 'repeated'}",
+                                f"{len(heads)} headings for documented command {it.cmd}({tok} ...) whose argument spans lines", wit)
+            elif heads:
+                res.violate("multi-line-argument:entry-for-undocumented-command", f"heading {heads[0]!r}", wit)
+        if doc is not None:
+            res.count("documented_api_checked")
+            if len([d for d in doc.aggregator.documented if type(d).__name__ != "ModuleDocumentation"]) != len(exp):
+                res.violate("multi-line-argument:documented-api-count", f"{len(doc.aggregator.documented)} objects, {len(exp)} entries expected", wit)
+        return res
+
     def run_case(self, idx, rng):
+        if idx % 12 == 7:
+            return self.multiline_case(idx, rng)
         res = CaseResult()
         mod, b, mode = self.build(idx, rng)
         lay = Layout(rng, comments=rng.choice([0.0, 0.3, 0.8]), wild=rng.choice([0.0, 0.3]), case="random", docforms=rng.choice([0.0, 0.0, 0.3]))
